@@ -44,11 +44,14 @@ var c19Sels = []struct {
 	text string
 	keys []string
 	vars bool
+	v    interface{} // value given for $v with the subscription request (nil = not given: the default, true, decides)
 }{
-	{"{name}", []string{"name"}, false},
-	{"{n}", []string{"n"}, false},
-	{"{name n}", []string{"name", "n"}, false},
-	{"{name n @include(if: $v)}", []string{"name", "n"}, true},
+	{"{name}", []string{"name"}, false, nil},
+	{"{n}", []string{"n"}, false, nil},
+	{"{name n}", []string{"name", "n"}, false, nil},
+	{"{name n @include(if: $v)}", []string{"name", "n"}, true, nil},
+	// the same request text with the variable given as false: this subscriber's own selection leaves n out
+	{"{name n @include(if: $v)}", []string{"name"}, true, false},
 }
 
 type c19Op struct {
@@ -265,6 +268,10 @@ func (h *c19H) do(o c19Op) (log []string, cnt int, gotErr bool, pi *core.PanicIn
 				q = "subscription S($v: Boolean = true) { ev" + arg + " " + sel.text + " }"
 			}
 			var res map[string]interface{}
+			var svars map[string]interface{}
+			if sel.v != nil {
+				svars = map[string]interface{}{"v": sel.v}
+			}
 			if h.prepared {
 				// one parsed executable per request text, shared by every subscriber that sends that request
 				exe := h.exes[q]
@@ -276,14 +283,14 @@ func (h *c19H) do(o c19Op) (log []string, cnt int, gotErr bool, pi *core.PanicIn
 					h.exes[q] = exe
 				}
 				var rerr error
-				if res, rerr = h.root.ResolveExecutable(exe, "", nil); res == nil {
+				if res, rerr = h.root.ResolveExecutable(exe, "", svars); res == nil {
 					res = map[string]interface{}{}
 				}
 				if rerr != nil {
 					res["errors"] = ggql.FormErrorsResult(rerr)
 				}
 			} else {
-				res = h.root.ResolveString(q, "", nil)
+				res = h.root.ResolveString(q, "", svars)
 			}
 			if res["errors"] != nil {
 				gotErr = true
@@ -418,15 +425,15 @@ func runC19(c *core.Ctx) {
 		prepared          bool
 	}
 	cfgs := []cfg{
-		{"full alphabet, <= 2 live", 2, []int{0, 1, 2, 3}, []int{0, 1, 2}, []int{0, 1, 2, 3}, false, false},
+		{"full alphabet, <= 2 live", 2, []int{0, 1, 2, 3, 4}, []int{0, 1, 2}, []int{0, 1, 2, 3}, false, false},
 		{"reduced alphabet, <= 3 live, reflection events", 3, []int{0, 2}, []int{0, 2}, []int{0, 1, 2}, true, false},
-		{"reduced alphabet, <= 3 live, prepared requests", 3, []int{0, 2}, []int{0, 2}, []int{0, 1, 2}, false, true},
+		{"reduced alphabet, <= 3 live, prepared requests", 3, []int{0, 3, 4}, []int{0, 2}, []int{0, 1, 2}, false, true},
 	}
 	if c.Thorough() {
 		cfgs = []cfg{
-			{"full alphabet, <= 3 live", 3, []int{0, 1, 2, 3}, []int{0, 1, 2}, []int{0, 1, 2, 3}, false, false},
+			{"full alphabet, <= 3 live", 3, []int{0, 1, 2, 3, 4}, []int{0, 1, 2}, []int{0, 1, 2, 3}, false, false},
 			{"reduced alphabet, <= 4 live, reflection events", 4, []int{0, 2}, []int{0, 2}, []int{0, 1, 2}, true, false},
-			{"reduced alphabet, <= 4 live, prepared requests", 4, []int{0, 2}, []int{0, 2}, []int{0, 1, 2}, false, true},
+			{"reduced alphabet, <= 4 live, prepared requests", 4, []int{0, 3, 4}, []int{0, 2}, []int{0, 1, 2}, false, true},
 		}
 	}
 	completed := true
@@ -485,7 +492,7 @@ func runC19(c *core.Ctx) {
 	if c.Thorough() {
 		histLen = 5
 	}
-	hops := c19Ops([]int{0, 3}, []int{0, 2}, []int{0, 1, 2})
+	hops := c19Ops([]int{0, 3, 4}, []int{0, 2}, []int{0, 1, 2})
 	var seq []c19Op
 	var idx int64
 	var rec func()
